@@ -278,7 +278,11 @@ class C09:
                 # is every lost request one the proxy itself gave up on (send to a backend whose socket was just closed)?
                 gave_up = set(re.findall(r"Fail to send the message to the backend.*?Call-ID: ([\w-]+)", log))
                 explained = [i for i in lost_ids if i in gave_up]
-                if len(explained) == len(lost_ids) and len(lost_ids) == r["lost"]:
+                # the known finding is specifically a WRITE on the socket of a backend that was just closed: UDPBackend.Send
+                # logs "Fail to send message to backend" (no "the") for each such write.  A request the pool gave up on
+                # without any write attempt ("fail to send msg to all the backend", "fail to get next backend") is not it.
+                write_failures = len(re.findall(r"Fail to send message to backend", log))
+                if len(explained) == len(lost_ids) and len(lost_ids) == r["lost"] and write_failures >= len(lost_ids):
                     failures.append(dict(base, kind="mismatch", has_input=True, key="request-dropped-when-backend-removed",
                                          summary="%d of %d requests were dropped by the proxy: RoundRobinBackend.Send picked a backend that the resolver "
                                                  "goroutine removed (socket closed) before the write; the send error is logged and the request is not "
@@ -324,8 +328,38 @@ class C09:
             except lib.BuildError as e:
                 failures.append({"kind": "crash", "key": "driver-build", "has_input": False, "component": "racestress",
                                  "summary": e.what, "log": e.log})
+        if not os.environ.get("VERIF_C09_NOSTRESS"):
+            self.pool_stress(ctx, cov, failures)
         cov["exhaustive"] = True   # the static half covers every recorded site, not a sample
         return {"coverage": cov, "failures": failures}
+
+    def pool_stress(self, ctx, cov, failures):
+        """"every request still reaches exactly one backend" under membership changes, on the pool itself: the real
+        RoundRobinBackend.Send racing with Add/RemoveBackend, backend doubles that never fail and at least one backend
+        registered at every instant (so the known socket-closed finding cannot occur): a failed or panicking dispatch, or a
+        delivery count different from the number of dispatches, is a lost / duplicated request."""
+        from lib import Case
+        plans = [(600, 2, 3, 2), (400, 1, 2, 4)] if ctx["tier"] == "quick" else [(2500, p, c, s) for p in (1, 2) for c in (1, 3) for s in (1, 4)]
+        drv = lib.build_driver(ctx["work"])
+        stress = [Case("rrstress", "ps%d" % i, list(p), {"kind": "pool-stress", "plan": list(p)}) for i, p in enumerate(plans)]
+        got = lib.run_impl(drv, stress, ctx["work"], tag="poolstress")
+        tot = {"sends": 0, "errors": 0, "panics": 0, "delivered": 0}
+        for c in stress:
+            o = got.get(c.id, [b"crash"])
+            if o[:1] in ([b"crash"], [b"panic"]) or len(o) < 5:
+                failures.append({"kind": "crash", "key": "stress-crash", "has_input": True, "component": "rrstress", "case_line": c.line(),
+                                 "summary": "the pool stress died: %s" % [lib.show(t, 300) for t in o[:2]]})
+                continue
+            sends, errs, panics, delivered = (int(x) for x in o[:4])
+            for k_, v in zip(("sends", "errors", "panics", "delivered"), (sends, errs, panics, delivered)):
+                tot[k_] += v
+            if errs or panics or delivered != sends:
+                failures.append({"kind": "judge", "key": "lost-requests", "has_input": True, "component": "rrstress", "case_line": c.line(),
+                                 "counts": {"sends": sends, "errors": errs, "panics": panics, "delivered": delivered},
+                                 "summary": "requests racing with backend membership changes were lost on the pool: %d dispatches, %d failed, %d "
+                                            "panicked (%s), %d delivered although %d backend(s) were registered the whole time and no send can fail"
+                                            % (sends, errs, panics, lib.show(o[4], 120), delivered, c.meta["plan"][1])})
+        cov["pool_stress"] = tot
 
 
 PROP = C09()
